@@ -113,6 +113,7 @@ func tryRun(w *W, idx int, prop int) {
 			g.Budget = 300
 		}
 		g.ISetVars, g.SSetVars = nil, nil
+		g.Remote = r.Intn(3) == 0
 		tree = g.Root(s.Dep(r))
 	}
 	tryRandomProgram(w, r, name, tree, prop)
